@@ -197,7 +197,8 @@ def parse_layout(data):
         tend = pos + tl
         while rp + 42 <= tend:
             oid, rtid, prev, tloc, vlen, plen = struct.unpack('>8s8sQQHQ', data[rp:rp + 42])
-            inline[oid] = plen > 0
+            # True: the record holds its pickle; otherwise the position its back-pointer names (0: un-creation)
+            inline[oid] = True if plen > 0 else ('back', struct.unpack('>Q', data[rp + 42:rp + 50])[0])
             rp += 42 + (plen or 8)
         out.append((tid, pos, pos + tl + 8, inline))
         pos += tl + 8
@@ -390,8 +391,18 @@ def _execute(case):
                 inline = [x for x in layout if x[0] == tid][0][3]
 
                 def norm(txn):
-                    return txn[:5] + (tuple((oid, data if inline.get(oid) else '<via back-pointer>')
-                                            for oid, data in txn[5]),)
+                    return txn[:5] + (tuple((oid, data if inline.get(oid) is True or inline.get(oid) == ('back', 0)
+                                             else '<via back-pointer>') for oid, data in txn[5]),)
+                # ... but only through a target that is still recognisable as a record of that object: the record a
+                # back-pointer names is accepted after its oid has been checked (otherwise the transaction is skipped)
+                through_ruins = [oid for oid, v in inline.items() if v is not True and v[1] and
+                                 bytes(damaged[v[1]:v[1] + 8]) != oid]
+                if through_ruins:
+                    out.fail((PROPERTY, 'recover-damaged', 'record-through-destroyed-back-pointer-target'),
+                             'output transaction %r holds a record of %r whose back-pointer names position %d, where the damaged '
+                             'input no longer has a record of that object: %s' % (
+                                 tid, through_ruins[0], inline[through_ruins[0]][1], fmt_answer(t)))
+                    break
                 if norm(t) != norm(exp):
                     out.fail((PROPERTY, 'recover-damaged', 'transaction-altered'),
                              'undamaged transaction %r differs in the output: %s ; input %s' % (
